@@ -30,3 +30,10 @@ Definition src_only_guard_static : bool := PROCESS_WIDE_STATE_IS_THE_GUARD_ONLY 
 Definition src_macro_statics_are_counters : bool := MACRO_STATICS_ARE_THE_CALL_COUNTERS =? 1.
 Lemma src_state_shape : src_only_guard_static && src_macro_statics_are_counters = true.
 Proof. reflexivity. Qed.
+
+(* the gate comes first, as found in the source: when_called* only build the builder (nothing of the injector is touched), and the checked
+   installation calls begin with their test-and-panic: a refusal is the model's OpRefuse, taken in the state before the call *)
+Definition src_when_called_touches_nothing : bool := WHEN_CALLED_TOUCHES_NOTHING =? 1.
+Definition src_gate_first : bool := GATE_IS_THE_FIRST_STATEMENT =? 1.
+Lemma src_refusal_shape : src_when_called_touches_nothing && src_gate_first = true.
+Proof. reflexivity. Qed.
